@@ -32,15 +32,14 @@ Proof.
   destruct (run_script (fire_due s2) o (had_cookie (req_of w r)) (rq_script r)) as [[s3 sr] cks']. reflexivity.
 Qed.
 
-Theorem step_saves_data b (S : key -> Prop) (PSd : list (N * N) -> Prop) w r k0 d0 :
+Theorem step_saves_data_pre b (S : key -> Prop) (PSd : list (N * N) -> Prop) w r k0 d0 :
   LIb b (w_st w) -> rq_plan r = [] -> presents w r = CKey k0 -> lookup (store (w_st w)) k0 <> None ->
   CrashFault2.J (KC S PSd) (w_st w) ->
   (forall id0 rc0, ob_start (snd (step w (HReq (nocrash r)))) = Some (id0, rc0) -> r_data rc0 = Some d0) ->
   (forall x, In x (script_data d0 (rq_script r)) -> PSd x) ->
-  no_del (ob_evs (snd (step w (HReq (nocrash r))))) ->
-  Forall (ELC S PSd) (ob_evs (snd (step w (HReq (nocrash r))))).
+  Forall (ELC S PSd) (ndp (ob_evs (snd (step w (HReq (nocrash r)))))).
 Proof.
-  intros Hl Hpl Hpr Hst HJ Hd0 Hps Hnd. revert Hnd. rewrite <- req_final_evs. unfold req_final.
+  intros Hl Hpl Hpr Hst HJ Hd0 Hps. rewrite <- req_final_evs. unfold req_final.
   pose proof (GWb_Gb b Q0 Q0_qt (w_st w) (rq_plan r) (rq_tb r) Hl Hpl) as G1. fold (pre_of w r) in G1.
   assert (Hh : forall s2 o cks, start (pre_of w r) (req_of w r) = (s2, Ok (Some o), cks) -> hdat s2 o d0).
   { intros s2 o cks E.
@@ -55,8 +54,21 @@ Proof.
     assert (d1 = d0) by congruence. subst d1. exact (Hps x Hx).
   - intros s2 o cks E. exists d0. exact (Hh _ _ _ E).
   - pose proof (CrashFault.x_evs _ _ _ X) as Xe. unfold pre_of in Xe at 2. sst. rewrite app_nil_r in Xe.
-    rewrite Xe, rev_involutive. intro Hnd. apply Hc; [|exact Hnd].
+    rewrite Xe, rev_involutive. apply Hc.
     eapply CrashFault2.J_same; [| | |exact HJ]; reflexivity.
+Qed.
+
+(* the form for a step that deletes nothing at all *)
+Theorem step_saves_data b (S : key -> Prop) (PSd : list (N * N) -> Prop) w r k0 d0 :
+  LIb b (w_st w) -> rq_plan r = [] -> presents w r = CKey k0 -> lookup (store (w_st w)) k0 <> None ->
+  CrashFault2.J (KC S PSd) (w_st w) ->
+  (forall id0 rc0, ob_start (snd (step w (HReq (nocrash r)))) = Some (id0, rc0) -> r_data rc0 = Some d0) ->
+  (forall x, In x (script_data d0 (rq_script r)) -> PSd x) ->
+  no_del (ob_evs (snd (step w (HReq (nocrash r))))) ->
+  Forall (ELC S PSd) (ob_evs (snd (step w (HReq (nocrash r))))).
+Proof.
+  intros Hl Hpl Hpr Hst HJ Hd0 Hps Hnd. rewrite <- (ndp_nodel _ Hnd).
+  exact (step_saves_data_pre b S PSd w r k0 d0 Hl Hpl Hpr Hst HJ Hd0 Hps).
 Qed.
 
 (* ------------------------------------------------ small list facts *)
@@ -85,9 +97,9 @@ Qed.
 
 (* ------------------------------------------------ the theorem *)
 
-Theorem presented_data_any w r n k0 rest rn d0 :
+Theorem presented_data_pre w r n k0 rest rn d0 :
   LIx (w_st w) -> graves_drawn (w_st w) -> rq_plan r = [] -> rq_crash r = Some n ->
-  no_deletes (ob_evs (snd (step w (HReq (nocrash r))))) ->
+  no_deletes (ev_prefix (ob_evs (snd (step w (HReq (nocrash r))))) n) ->
   presents w r = CKey k0 ->
   CrashChain.spath (fun _ => True) (store (w_st w)) k0 rest ->
   lookup (store (w_st w)) (last rest k0) = Some rn ->
@@ -119,9 +131,9 @@ Proof.
     - intros k rk Hk [->|Hf] Hr.
       + left. unfold kn in Hk. fold kn in Hk. rewrite Hrn in Hk. injection Hk as <-. reflexivity.
       + exfalso. exact (Hfresh_unstored k rk Hf Hk). }
-  assert (Hev : Forall (ELC S PSd) (ob_evs (snd (step w (HReq (nocrash r)))))).
-  { apply (step_saves_data b S PSd w r k0 d0 Hl Hpl Hpr Hk0 HJ Hd0); [intros x Hx; right; exact Hx | exact Hnd]. }
-  destruct (chain_resolves_stop_record w r n k0 rest Hlx Hg Hpl Hcr Hnd Hp) as (tl & rend & Hs & Hfr & Hend & Hre & Hsrc).
+  assert (Hev : Forall (ELC S PSd) (ndp (ob_evs (snd (step w (HReq (nocrash r))))))).
+  { apply (step_saves_data_pre b S PSd w r k0 d0 Hl Hpl Hpr Hk0 HJ Hd0). intros x Hx; right; exact Hx. }
+  destruct (chain_resolves_stop_record_pre w r n k0 rest Hlx Hg Hpl Hcr Hnd Hp) as (tl & rend & Hs & Hfr & Hend & Hre & Hsrc).
   eapply CrashChain.spath_resolves_chain. eapply spath_end_upgrade; [exact Hs|].
   intros rend' Hl' Hr'. rewrite Hend in Hl'. injection Hl' as <-.
   assert (HSx : S (last (rest ++ tl) k0) /\ (tl = [] -> last (rest ++ tl) k0 = kn)).
@@ -136,5 +148,25 @@ Proof.
       (* the end of a non-empty fresh tail is fresh, hence not stored before *)
       rewrite last_app_ne in Hpre by discriminate.
       rewrite Forall_forall in Hfr. exact (Hfresh_unstored _ _ (Hfr _ (last_In_ne (t0 :: tl') k0 ltac:(discriminate))) Hpre).
-  - rewrite Forall_forall in Hev. specialize (Hev _ Hin). cbn [ELC] in Hev. exact (Hev HS Hre).
+  - rewrite Forall_forall in Hev.
+    assert (Hin' : In (EvSave (last (rest ++ tl) k0) rend true) (ndp (ob_evs (snd (step w (HReq (nocrash r))))))).
+    { rewrite (ev_prefix_split (ob_evs (snd (step w (HReq (nocrash r))))) n). apply ndp_prefix_In; [exact Hnd | exact Hin]. }
+    specialize (Hev _ Hin'). cbn [ELC] in Hev. exact (Hev HS Hre).
+Qed.
+
+(* the form for a step that deletes nothing at all *)
+Theorem presented_data_any w r n k0 rest rn d0 :
+  LIx (w_st w) -> graves_drawn (w_st w) -> rq_plan r = [] -> rq_crash r = Some n ->
+  no_deletes (ob_evs (snd (step w (HReq (nocrash r))))) ->
+  presents w r = CKey k0 ->
+  CrashChain.spath (fun _ => True) (store (w_st w)) k0 rest ->
+  lookup (store (w_st w)) (last rest k0) = Some rn ->
+  (forall o ob, In (last rest k0, o) (cache (w_st w)) -> hget (w_st w) o = Some ob -> r_ref (o_rec ob) = None ->
+     CrashFault3.dat (o_rec ob) = CrashFault3.dat rn) ->
+  (forall id0 rc0, ob_start (snd (step w (HReq (nocrash r)))) = Some (id0, rc0) -> r_data rc0 = Some d0) ->
+  CrashChain.resolves_chain
+    (fun rd => CrashFault3.dat rd = CrashFault3.dat rn \/ In (CrashFault3.dat rd) (script_data d0 (rq_script r)))
+    (store (w_st (fst (step w (HReq r))))) k0.
+Proof.
+  intros Hl Hg Hpl Hcr Hnd. exact (presented_data_pre w r n k0 rest rn d0 Hl Hg Hpl Hcr (no_deletes_prefix _ n Hnd)).
 Qed.
